@@ -1,6 +1,7 @@
 package checks
 
 import (
+	"path/filepath"
 	"fmt"
 	"syscall"
 	"context"
@@ -28,7 +29,13 @@ import (
 // chunked reader, seeded delays at the pipeline hand-over hooks).
 
 func init() {
-	Register(&Check{Prop: "C10", Run: runC10, Replay: func(c *Ctx, cs *Case) { evalC10(c, cs) }})
+	Register(&Check{Prop: "C10", Run: runC10, Replay: func(c *Ctx, cs *Case) {
+		if cs.Kind == "rootless-or-dot" {
+			evalC10Rootless(c, cs)
+			return
+		}
+		evalC10(c, cs)
+	}})
 }
 
 var c10Ops = []string{"text", "branch", "json", "yaml", "dryrun", "walk", "mkdir", "verify", "verify.strict", "dryrun.branch", "walk.branch", "mkdir.noext"}
@@ -185,7 +192,65 @@ func runC10(c *Ctx) bool {
 		evalC10(c, cs)
 		c.Progress(false)
 	}
+	// documents without any root (empty, blank) and documents whose root is "." (the target itself),
+	// made into a target that exists, that does not exist yet, and that is a regular file
+	for k, d := range []string{"", "\n", "  \n\n", "- .\n  - kid\n  - sub\n    - leaf\n", "- .\n", "\u3000\n- .\n  - kid\n"} {
+		idx := n + k
+		if !c.Mine(idx) {
+			continue
+		}
+		cs := &Case{Idx: idx, Kind: "rootless-or-dot", Seed: uint64(idx)}
+		cs.SetDoc(d)
+		c.Journal(cs)
+		evalC10Rootless(c, cs)
+		c.Progress(false)
+	}
 	return true
+}
+
+func evalC10Rootless(c *Ctx, cs *Case) {
+	doc := cs.Doc
+	for _, tform := range []string{"existing", "missing", "regular-file"} {
+		for _, op := range []string{"mkdir", "verify"} {
+			var errs [2]error
+			var pans [2]any
+			var changes [2][]string // what the call changed in its own jail (the jails differ in the target's mode)
+			for mi, massive := range []bool{false, true} {
+				j, err := mon.NewJail(c.TmpDir, true)
+				if err != nil {
+					return
+				}
+				before := j.Snap()
+				target := j.Target
+				switch tform {
+				case "missing":
+					target = j.Target + "/not/there/yet"
+				case "regular-file":
+					target = filepath.Join(filepath.Dir(j.Target), "sentinel-file")
+				}
+				cs.Entry = op + map[bool]string{true: ",massive", false: ",simple"}[massive]
+				cs.Tags = []string{"target-" + tform}
+				c.Rejournal(cs)
+				res, _ := c10Run(c, op, doc, massive, 0, cs.Seed+uint64(mi)+1, target)
+				errs[mi], pans[mi] = res.err, res.pan
+				changes[mi] = mon.Diff(before, j.Snap())
+				j.Remove()
+			}
+			c.Eval(gen.HashString(string(doc)+"\x00rootless"+op+tform), true)
+			c.Count("rootless_or_dot_root_pairs", 1)
+			det := map[string]any{"doc": string(doc), "target": tform, "simple_err": errStr(errs[0]), "massive_err": errStr(errs[1])}
+			switch {
+			case pans[0] != nil || pans[1] != nil:
+				c.Violation(cs, "panic", "rootless", det)
+			case (errs[0] == nil) != (errs[1] == nil):
+				c.Violation(cs, "error-iff.differs", op+"/"+tform, det)
+			case errs[0] == nil && !sameStrings(changes[0], changes[1]):
+				det["changed_by_simple"], det["changed_by_massive"] = changes[0], changes[1]
+				c.Violation(cs, "result.differs", op+"/"+tform, det)
+			}
+		}
+	}
+	cs.Entry, cs.Tags = "", nil
 }
 
 var c10Quiet = mon.NewLeakMonitor()
